@@ -36,7 +36,7 @@ func init() {
 		ID: "C03",
 		Rule: "case = one proxied session over real sockets: client TCP (optionally TLS-terminated by the tls handler) -> layer4 proxy -> 1-2 harness upstream servers (tcp / unix / tls), " +
 			"payload sizes {0,1,2047..2049,64KiB,1MiB(+4MiB thorough)} per direction with distinct PRF domains and random chunking, a matcher that prefetches 0..4096 bytes first, and a close order " +
-			"(client-first / upstream-first / simultaneous / upstream-close-early / client-abort / upstream-reset / one of two peers resetting while the other waits for end-of-stream); " +
+			"(client-first / upstream-first / upstream-first behind a throttle or tee handler whose connection cannot half-close / simultaneous / upstream-close-early / client-abort / upstream-reset / one of two peers resetting while the other waits for end-of-stream); " +
 			"plus dial-failure sessions (2-3 peers, one refusing for ever or until it recovers inside try_duration, PROXY header v0/v1/v2, garbage collector off so that finalizers cannot close a leaked socket): every " +
 			"connection of an abandoned attempt is closed when the handler returns. oracle: (a) each upstream received exactly the client's stream, (b) the client received each upstream's " +
 			"bytes in order, (c) the side that is still open observes EOF while its own direction keeps flowing, (d) the handler returns and every upstream connection is closed, (e) no goroutine left in " +
@@ -77,6 +77,8 @@ type Session struct {
 	Chunk    int    `json:"chunk"`    // write chunk size
 	DelayUs  int    `json:"delay_us"` // between chunks
 	Policy   string `json:"policy"`
+	// Wrap is the handler in front of the proxy handler in the upstream-first-wrapped order
+	Wrap string `json:"wrap,omitempty"`
 	// ResetPeer is the peer that resets in the peer-reset-mixed order
 	ResetPeer int `json:"reset_peer,omitempty"`
 }
@@ -121,9 +123,19 @@ func genSession(c *fw.Ctx, i int) *Session {
 			s.Prefetch = s.CLen
 		}
 	}
-	if s.DownTLS || s.Order == "upstream-first" {
+	if s.Order != "peer-reset-mixed" && r.Intn(10) == 0 {
+		// the downstream connection reaches the proxy handler wrapped by a handler whose connection type cannot
+		// half-close (throttle, tee); the upstream finishes first and the client, which knows how much to expect,
+		// sends its stream afterwards
+		s.Order, s.DownTLS, s.TLS12, s.Prefetch = "upstream-first-wrapped", false, false, 0
+		s.Wrap = []string{"throttle", "tee"}[r.Intn(2)]
+	}
+	if s.Order == "upstream-first" {
 		// (in the upstream-first order the client sends nothing until it has seen EOF, so no matcher may wait for its bytes)
 		s.Prefetch = 0
+	}
+	if s.DownTLS && r.Intn(2) == 0 {
+		s.Prefetch = 0 // otherwise the proxy handler sits in a subroute behind a matcher on the decrypted stream
 	}
 	return s
 }
@@ -231,7 +243,7 @@ func runSession(c *fw.Ctx, w *world, canary *oracle.Canary, s *Session) {
 	if os.Getenv("VERIF_C03_DEBUG") != "" {
 		watchdog = 5 * time.Second
 	}
-	graceful := s.Order == "client-first" || s.Order == "upstream-first" || s.Order == "simultaneous"
+	graceful := s.Order == "client-first" || s.Order == "upstream-first" || s.Order == "simultaneous" || s.Order == "upstream-first-wrapped"
 	C := oracle.Stream(domClient, uint64(fw.Mix(c.Seed, "c", s.Index)), s.CLen)
 	report := func(kind, what string, extra any) {
 		c.Violation(fmt.Sprintf("C03 %s [%s, up=%s]", kind, s.Order, s.UpNet), what, map[string]any{"session": s, "detail": extra})
@@ -250,6 +262,9 @@ func runSession(c *fw.Ctx, w *world, canary *oracle.Canary, s *Session) {
 		handler := func(uc *drive.UpConn) {
 			defer uc.Conn.Close()
 			order := s.Order
+			if order == "upstream-first-wrapped" {
+				order = "upstream-first"
+			}
 			if order == "peer-reset-mixed" {
 				order = "client-first"
 				if p == s.ResetPeer {
@@ -319,9 +334,23 @@ func runSession(c *fw.Ctx, w *world, canary *oracle.Canary, s *Session) {
 	if s.DownTLS {
 		handlers = append(handlers, map[string]any{"handler": "tls"})
 	}
+	switch s.Wrap {
+	case "throttle":
+		handlers = append(handlers, map[string]any{"handler": "throttle", "read_bytes_per_second": 1e9, "read_burst_size": 1 << 20})
+	case "tee":
+		handlers = append(handlers, map[string]any{"handler": "tee", "branch": []any{map[string]any{"handler": "verif_sink", "name": "teeb", "bufsize": 4096}}})
+	}
 	pol := map[string]any{"policy": s.Policy}
-	handlers = append(handlers, map[string]any{"handler": "verif_span", "name": "span"},
-		map[string]any{"handler": "proxy", "upstreams": []any{upstream}, "load_balancing": map[string]any{"selection": pol}})
+	tail := []any{map[string]any{"handler": "verif_span", "name": "span"},
+		map[string]any{"handler": "proxy", "upstreams": []any{upstream}, "load_balancing": map[string]any{"selection": pol}}}
+	if s.DownTLS && s.Prefetch > 0 {
+		// matching (prefetch) on the connection that the tls handler wrapped, then the relay of those bytes
+		at := s.Prefetch - 1
+		tail = []any{map[string]any{"handler": "subroute", "matching_timeout": "20s", "routes": []any{map[string]any{
+			"match":  []any{map[string]any{"verif_m1": map[string]any{"id": "pf", "need": s.Prefetch, "at": at, "eq": int(C[at])}}},
+			"handle": tail}}}}
+	}
+	handlers = append(handlers, tail...)
 	route := map[string]any{"handle": handlers}
 	if s.DownTLS {
 		route["match"] = []any{map[string]any{"tls": map[string]any{}}}
@@ -387,6 +416,20 @@ func runSession(c *fw.Ctx, w *world, canary *oracle.Canary, s *Session) {
 		eofBeforeSend = true
 		_ = writeChunks(conn, C, s.Chunk, s.DelayUs)
 		_ = conn.(closeWriter).CloseWrite()
+	case "upstream-first-wrapped":
+		// no end-of-stream can reach us while our own direction is open (the wrapped downstream cannot be
+		// half-closed): read what the peers are known to send, then send, then wait for the end
+		first := make([]byte, s.ULen*s.Peers)
+		_, rerr := io.ReadFull(conn, first)
+		_ = writeChunks(conn, C, s.Chunk, s.DelayUs)
+		_ = conn.(closeWriter).CloseWrite()
+		rest, err2 := io.ReadAll(conn)
+		got = append(first, rest...)
+		if rerr != nil {
+			got = got[:0]
+		}
+		clientEOF = rerr == nil && err2 == nil
+		close(clientGotEOF)
 	case "simultaneous", "upstream-close-early", "upstream-reset", "peer-reset-mixed":
 		done := make(chan struct{})
 		go func() { readAll(); close(done) }()
